@@ -12,9 +12,8 @@ what the channel delivers, positional arguments).
 The translator (`harness/translate/gen_cli.py`) re-extracts the `Prog` of `test`, `set`, `rm` and of
 the default case from the Python AST on every run (`Gen/Cli.lean`); `Props/C16.lean` proves them
 equal to `testProg`, `setProg`, `rmProg`, `defaultProg` below (`tie_*`), which are the hand-written
-transliteration (bug-compatible: `-f FILE` is opened by
-`argparse.FileType("r")`, i.e. with universal-newline translation, while POSIX `sys.stdin` is not
-translated).
+transliteration (`-f FILE` is opened with `newline=""`, like POSIX `sys.stdin` it is not
+newline-translated; the older, defective programs and wiring are kept as `old*`).
 
 An uncaught exception ends `main()` with a traceback on stderr and exit status 1; what was printed
 before stays on stdout. argparse errors end the process with status 2 before `main` dispatches.
@@ -62,6 +61,8 @@ inductive Prog where
   | write (x : Arg) (k : Prog)                      -- `sys.stdout.write(x)` / `print(x, end="")`
   | helpStderr (k : Prog)                           -- `parser.print_help(sys.stderr)`
   | ite (c : Cond) (t e : Prog)                     -- `if c: t… else: e…` (the rest of the block is in both)
+  | tryBind (r : Rhs) (k : Prog) (h : Prog)         -- `v_n = r` inside `try:`; if it raises, continue with `h`
+  | tryIte (c : Cond) (t e : Prog) (h : Prog)       -- a condition evaluated inside `try:`; handler `h`
   | ret (code : Nat)                                -- `return code`
   | done                                            -- end of `main` without `return`: `SystemExit(None)`, status 0
 deriving DecidableEq, Repr
@@ -182,6 +183,15 @@ def run (lib : Lib σ) (content : Except Err Text) (chan : Channel) (npath value
     | .ok true => run lib content chan npath value t st
     | .ok false => run lib content chan npath value e st
     | .error err => crash st err
+  | .tryBind r k h, st =>
+    match evalRhs lib content npath value st r with
+    | .ok (v, c) => run lib content chan npath value k { st with env := st.env ++ [v], consumed := c }
+    | .error _ => run lib content chan npath value h st
+  | .tryIte c t e h, st =>
+    match evalCond lib chan st c with
+    | .ok true => run lib content chan npath value t st
+    | .ok false => run lib content chan npath value e st
+    | .error _ => run lib content chan npath value h st
   | .ret n, st => ⟨st.out, n, none, st.help⟩
   | .done, st => ⟨st.out, 0, none, st.help⟩
 
@@ -190,8 +200,43 @@ def run (lib : Lib σ) (content : Except Err Text) (chan : Channel) (npath value
 def sOK : Text := ['O', 'K']
 def sFail : Text := ['F', 'a', 'i', 'l']
 
-/-- `case "test"` -/
+/-- what the `except Exception:` branch of `case "test"` goes on to do: `passed = False`, so
+    `print("Fail"); return 1` -/
+def failExit : Prog := .print (.lit sFail) (.ret 1)
+
+/-- `case "test"` (since /repo 1526c34): reading, parsing, the error test, rebuilding and the
+    comparison are inside `try: … except Exception: passed = False`
+
+```python
+try:
+    original = args.file.read()
+    source = parse(original)
+    passed = not source.contains_error and source.rebuild() == original
+except Exception:
+    passed = False
+print("OK" if passed else "Fail")
+return 0 if passed else 1
+```
+(`passed` is resolved per path by the translator: every path ends in `print("OK"); return 0` or
+`print("Fail"); return 1`.) -/
 def testProg : Prog :=
+  .tryBind .read (                                  -- v0: original = args.file.read()
+  .tryBind (.parse (.var 0)) (                      -- v1: source = parse(original)
+  .tryIte (.containsError (.var 1))                 -- not source.contains_error and …
+    failExit                                        --   passed = False
+    (.tryBind (.rebuild (.var 1)) (                 -- v2 = source.rebuild()
+     .tryIte (.eq (.var 2) (.var 0))                -- v2 == original
+       (.print (.lit sOK) (.ret 0))                 --   passed = True
+       failExit                                     --   passed = False
+       failExit)
+     failExit)
+    failExit)
+  failExit)
+  failExit
+
+/-- `case "test"` BEFORE /repo 1526c34 (fixed defect C16-test-traceback), kept so that a regression is
+    recognised: exceptions of `read()`, `parse()`, `rebuild()` escape. -/
+def oldTestProg : Prog :=
   .bind .read <|                                    -- v0: original = args.file.read()
   .bind (.parse (.var 0)) <|                        -- v1: source = parse(original)
   .ite (.containsError (.var 1))                    -- if source.contains_error:
@@ -248,11 +293,15 @@ structure FileOpt where
   encoding : String
   defaultStdin : Bool
   /-- the file is opened with `newline=None` (what `argparse.FileType` always does): `\r\n` and
-      `\r` are translated to `\n` while reading -/
+      `\r` are translated to `\n` while reading; `false` for `open(…, newline="")` -/
   universalNewlines : Bool
 deriving DecidableEq, Repr
 
-def fileOpt : FileOpt := ⟨["-f", "--file"], "r", "utf-8", true, true⟩
+/-- since /repo 1fe47da: `type=_open_input`, i.e. `open(path, "r", encoding="utf-8", newline="")` -/
+def fileOpt : FileOpt := ⟨["-f", "--file"], "r", "utf-8", true, false⟩
+
+/-- BEFORE /repo 1fe47da (fixed defect C16-file-newline-translation): `argparse.FileType("r", encoding="utf-8")` -/
+def oldFileOpt : FileOpt := ⟨["-f", "--file"], "r", "utf-8", true, true⟩
 
 /-- `TextIOWrapper(newline=None)` reading: `\r\n` ↦ `\n`, lone `\r` ↦ `\n`. A `\r` is emitted as
     `\n` at once; a `\n` directly after it is swallowed (`prevCR`). -/
@@ -294,6 +343,10 @@ def Inv.content (inv : Inv) : Except Err Text := contentWith fileOpt inv.chan in
 
 def runProg (lib : Lib σ) (p : Prog) (inv : Inv) : Res :=
   run lib inv.content inv.chan inv.npath inv.value p {}
+
+/-- the same with another `-f` wiring (used for the old, newline-translating one) -/
+def runProgWith (fo : FileOpt) (lib : Lib σ) (p : Prog) (inv : Inv) : Res :=
+  run lib (contentWith fo inv.chan inv.raw) inv.chan inv.npath inv.value p {}
 
 /-- `python -m nix_manipulator <cmd> …` for a parsed command line -/
 def cli (lib : Lib σ) (cmd : Cmd) (inv : Inv) : Res := runProg lib (progOf cmd) inv
@@ -358,9 +411,12 @@ def libEdit (lib : Lib σ) (cmd : Cmd) (npath value : Text) (t : Text) : Except 
 
 def hasCR (t : Text) : Bool := t.contains '\r'
 
-/-- the command line before /repo 9670208 (`test` is unchanged) -/
+/-- the programs before /repo 9670208 (`set`, `rm`) and 1526c34 (`test`) -/
 def oldProgOf : Cmd → Prog
-  | .test => testProg | .set => oldSetProg | .rm => oldRmProg
+  | .test => oldTestProg | .set => oldSetProg | .rm => oldRmProg
+
+/-- the current programs behind another `-f` wiring -/
+def cliWith (fo : FileOpt) (lib : Lib σ) (cmd : Cmd) (inv : Inv) : Res := runProgWith fo lib (progOf cmd) inv
 
 def oldCli (lib : Lib σ) (cmd : Cmd) (inv : Inv) : Res := runProg lib (oldProgOf cmd) inv
 
